@@ -212,10 +212,7 @@ def run(chk, prog):
         fn = M.methods[m_]
         evn = Evaluator(prog)
         r = evn.eval_fn(fn, M.module, M)
-        ok = is_call(r.ret, "reduce") and len(r.ret[2]) == 3 and r.ret[2][1:] == (P("masks"), P("mask"))
-        if ok:
-            rr = evn.apply(r.ret[2][0], [P("$a"), P("$b")], module=M.module)
-            ok = rr == ("bin", op, P("$a"), P("$b"))
+        ok = is_t(r.ret, "loop") and r.ret[1] == P("masks") and r.ret[2] == P("mask") and r.ret[3] == ("bin", op, P("mask"), ("elem", P("masks")))
         chk.require(ok, "MASK-TABLE", f"Mask.{m_}", "left fold", derived=show(r.ret)[:160], expected=f"reduce(a {op} b, masks, mask)", where=f"{M.module.rel}:{fn.lineno}")
     n = flag_tables(chk, prog)
     chk.explanation = "finite truth tables: concrete match arms vs traced arm of Mask.__or__/__xor__ (flag everywhere, chosen side where valid), index wrap-around, flag-only operations"
